@@ -41,6 +41,7 @@ type c10Cfg struct {
 	// SharedURL: every upstream has the same addr URL (a resolver name) and is told apart only by
 	// its dial_addr, as in "tls://dns.example" reached through two different addresses.
 	SharedURL bool
+	Cache     bool // memory cache on: repeated probes are served from it, late ones start a background refresh
 	Ups       []string
 	Sets      []c10Set
 	Rules     []c10Rule
@@ -49,7 +50,7 @@ type c10Cfg struct {
 var c10Suffixes = []string{"a.test", "b.test", "x.a.test", "y.x.a.test", "c.example", "test", "d.c.example"}
 
 func c10Gen(r *gen.R) *c10Cfg {
-	cfg := &c10Cfg{SharedURL: r.P(0.3)}
+	cfg := &c10Cfg{SharedURL: r.P(0.3), Cache: r.P(0.4)}
 	for i := 0; i < r.Range(1, 5); i++ {
 		cfg.Ups = append(cfg.Ups, fmt.Sprintf("up%d", i))
 	}
@@ -186,6 +187,9 @@ func (cfg *c10Cfg) yaml(dir string, upAddr map[string]string, listenUDP, listenT
 		}
 	}
 	fmt.Fprintf(&y, "servers:\n  - protocol: udp\n    listen: \"%s\"\n  - protocol: tcp\n    listen: \"%s\"\n", listenUDP, listenTCP)
+	if cfg.Cache {
+		y.WriteString("cache:\n  mem_size: 4194304\n")
+	}
 	return y.String()
 }
 
@@ -376,6 +380,70 @@ func c10Good(c *Ctx, idx int) {
 		if !bad {
 			c.Ev.Distinct(shape, pr.idx, c10Outcome(pr.rcode, pr.up))
 			c.Ev.Count("probes_"+c10Outcome(pr.rcode, pr.up), 1)
+		}
+	}
+	// with the cache on: ask the forwarded probes of this configuration again when their 2 s entries
+	// are in the last quarter of their lifetime (the hit starts a background refresh towards the
+	// rule's upstream), then look at everything the upstreams received
+	if cfg.Cache {
+		var late []*probe
+		for k := 0; k < 6; k++ {
+			suf := gen.Pick(r, c10Suffixes)
+			name := c03RandCase(r, fmt.Sprintf("ok-ttl2-q%dx%d.%s.", k, idx, suf))
+			pr := &probe{name: name, qtype: dns.TypeA, class: dns.ClassINET}
+			pr.idx, pr.rcode, pr.up = c10Eval(cfg, name)
+			if pr.up != "" {
+				late = append(late, pr)
+			}
+		}
+		ask := func(pr *probe) {
+			uc, e := dnsclient.DialUDP("", lu)
+			if e != nil {
+				return
+			}
+			defer uc.Close()
+			uc.Send(mkQuery(uint16(r.Intn(65536)), pr.name, pr.qtype, pr.class, false))
+			dl := time.Now().Add(3 * time.Second)
+			for time.Now().Before(dl) && len(uc.Received()) == 0 {
+				time.Sleep(time.Millisecond)
+			}
+		}
+		if len(late) > 0 {
+			for _, pr := range late {
+				ask(pr)
+			}
+			time.Sleep(1650 * time.Millisecond)
+			var wg sync.WaitGroup
+			for rep := 0; rep < 3; rep++ { // several requests in flight at once: request objects are recycled meanwhile
+				for _, pr := range late {
+					wg.Add(1)
+					go func(pr *probe) { defer wg.Done(); ask(pr) }(pr)
+				}
+			}
+			wg.Wait()
+			time.Sleep(300 * time.Millisecond)
+			probes = append(probes, late...)
+			c.Ev.Count("cache_on_late_repeats", int64(len(late)))
+		}
+	}
+	// everything an upstream received is a question some probe asked, routed to that upstream
+	for tag, s := range ups {
+		for _, ql := range s.Log() {
+			okq := false
+			for _, pr := range probes {
+				if strings.EqualFold(ql.Name, dns.Fqdn(pr.name)) && ql.Qtype == pr.qtype && ql.Qclass == pr.class {
+					okq = pr.up == tag
+					if okq {
+						break
+					}
+				}
+			}
+			c.Ev.Eval(1)
+			if !okq {
+				c.Violation("upstream-got-unrouted-question", fmt.Sprintf("upstream %s received the question %q type %d class %d (%s) which no probe routed to it; rules=%v sets=%v cache=%v", tag, ql.Name, ql.Qtype, ql.Qclass, ql.BadQuery, cfg.Rules, cfg.Sets, cfg.Cache),
+					map[string]any{"yaml": cfg.yaml(dir, upAddr, lu, lt), "upstream": tag, "name": ql.Name, "qtype": ql.Qtype, "qclass": ql.Qclass})
+				break
+			}
 		}
 	}
 	c.Ev.Count("good_configs", 1)
